@@ -52,7 +52,8 @@ def int_children(c, name="X"):
 class _RT(Harness):
     xcheck = 2
     module = "puan.logic.plog"
-    ids = (("explicit", "A"), ("generated", None))
+    # "explicit-any": an explicitly given id about which nothing is known (symbolic): it may look like a generated one
+    ids = (("explicit", "A"), ("generated", None), ("explicit-any", "<symbolic>"))
 
     def contracts(self, repo):
         return contracts()
@@ -61,7 +62,17 @@ class _RT(Harness):
         return [{"id": k} for k, _ in self.ids]
 
     def vid(self, case):
-        return dict(self.ids)[case["id"]]
+        v = dict(self.ids)[case["id"]]
+        if v == "<symbolic>":
+            from pyvc.sym import SId
+            c = ctx()
+            c.symbolic_ids = True
+            g = z3.Int("given.id")
+            fam = c.families.get("X")
+            if fam is not None and fam.base is not None:
+                c.add_pointwise(fam.base.ivar, fam.fn("id")(fam.base.ivar) != g)
+            return SId(g)
+        return v
 
     def setup(self, c, case):
         fam, xs = int_children(c)
@@ -78,7 +89,7 @@ class _RT(Harness):
         x, js = st["x"], st["js"]
         env = c.env
         out = [("rt.truth", truth(res, env) == truth(x, env))]
-        if c.state_case["id"] == "explicit":
+        if c.state_case["id"] in ("explicit", "explicit-any"):
             out.append(("rt.id-kept", res.id == x.id))
         else:
             out.append(("rt.no-generated-id-emitted", "id" not in js))
@@ -94,6 +105,9 @@ class _RT(Harness):
                 w[nm] = concretise_children(model, st[nm]._fam, 1, c.env)[0]
                 w[nm]["id"] = nm + w[nm]["id"]
         w["k"] = _mv(model, st["k"].t) if "k" in st else None
+        if case.get("id") == "explicit-any":
+            from .common import concrete_id
+            w["vid"] = concrete_id(c, model, z3.Int("given.id"), "G")
         return w
 
     def replay(self, w):
@@ -115,7 +129,7 @@ class _RT(Harness):
             for d in descr:
                 d["id"] = d["id"] + "_" * attempt if attempt % 2 else "r%d%s" % (attempt, d["id"])
         kids, env = build_children(descr)
-        vid = dict(self.ids)[w["case"]["id"]]
+        vid = w.get("vid", dict(self.ids)[w["case"]["id"]])
         x = self.build_native(pg, w, kids, vid)
         js = json.loads(json.dumps(x.to_json()))
         y = pg.from_json(js)
